@@ -1,0 +1,67 @@
+//! Verification-only hooks, compiled only with the `verif_hooks` feature (off by default).
+//!
+//! Seeded randomness seam: when armed on the current thread, `Sample::rand` draws from a
+//! splitmix64 stream instead of `OsRng`, so that blinding values and salts are replayable.
+
+extern crate std;
+
+use core::cell::Cell;
+
+use rand::RngCore;
+
+std::thread_local! {
+    static SEED: Cell<Option<u64>> = const { Cell::new(None) };
+}
+
+/// Arms (Some) or disarms (None) the seeded stream for the current thread.
+pub fn set_seed(seed: Option<u64>) {
+    SEED.with(|s| s.set(seed));
+}
+
+pub fn seed() -> Option<u64> {
+    SEED.with(|s| s.get())
+}
+
+struct SplitMix;
+
+impl SplitMix {
+    fn next(&mut self) -> u64 {
+        SEED.with(|s| {
+            let mut state = s.get().unwrap_or(0);
+            state = state.wrapping_add(0x9E37_79B9_7F4A_7C15);
+            s.set(Some(state));
+            let mut z = state;
+            z = (z ^ (z >> 30)).wrapping_mul(0xBF58_476D_1CE4_E5B9);
+            z = (z ^ (z >> 27)).wrapping_mul(0x94D0_49BB_1331_11EB);
+            z ^ (z >> 31)
+        })
+    }
+}
+
+impl RngCore for SplitMix {
+    fn next_u32(&mut self) -> u32 {
+        self.next() as u32
+    }
+    fn next_u64(&mut self) -> u64 {
+        self.next()
+    }
+    fn fill_bytes(&mut self, dest: &mut [u8]) {
+        for chunk in dest.chunks_mut(8) {
+            let v = self.next().to_le_bytes();
+            chunk.copy_from_slice(&v[..chunk.len()]);
+        }
+    }
+    fn try_fill_bytes(&mut self, dest: &mut [u8]) -> Result<(), rand::Error> {
+        self.fill_bytes(dest);
+        Ok(())
+    }
+}
+
+/// Returns a seeded sample if the seam is armed on this thread.
+pub fn seeded_sample<T: crate::types::Sample>() -> Option<T> {
+    if seed().is_some() {
+        Some(T::sample(&mut SplitMix))
+    } else {
+        None
+    }
+}
